@@ -115,6 +115,9 @@ func TestVerifC03(t *testing.T) {
 		case 2:
 			cfg.WideObjStm = true
 			cfg.NoObjStm = false
+			if c.Index%8 == 2 {
+				cfg.ManyObjects = 800 + c.Rng.Intn(4000)
+			}
 		case 3:
 			cfg.PadBytes = 1<<16 - c.Rng.Intn(3000)
 			if c.Index%16 == 3 {
